@@ -137,7 +137,7 @@ fn make_case(progs: &[Vec<L>], mailbox: Mailbox, work: Work, interval_with: bool
         desc,
         exec: ExecCfg { horizon: 4, ..ExecCfg::default() },
         bound,
-        scene: Box::new(ProgScene { spawn: SpawnCfg::plain(mailbox), roles: vec![role], clients, extra: X { interval_with }, oracle }),
+        scene: Box::new(ProgScene { attach: crate::progscene::Attach::None, spawn: SpawnCfg::plain(mailbox), roles: vec![role], clients, extra: X { interval_with }, oracle }),
     }
 }
 
